@@ -73,6 +73,8 @@ class Reference(types.Singleton):
 
     def inside(self, point, eps=0):
         for strans in self.simplex_transforms:
+            if not strans.det:
+                continue # a degenerate simplex has no interior
             spoint = strans.invapply(point) # point in simplex coordinates
             tol = -eps / strans.det # account for simplex scale
             if all(bary >= tol for bary in (*spoint, 1-spoint.sum())):
